@@ -550,6 +550,73 @@ def documented(col, watch):
             col.violation('C08/mode-leak-witness:' + name, 'glom(%s, %s) gave %r, expected %r' % (short(target), short(spec), got, want), None)
 
 
+def constructs_that_pass_the_mode_on(col):
+    """a Coalesce branch, a Pipe step, an Or / And child are evaluated in the mode in force: for every wrapper W and every kind of
+    plain spec p (strings that do and do not resolve as paths on the target, tuples, lists, dicts), W(Coalesce(p)), W(Coalesce(<fails>, p)),
+    W(Pipe(p)), W(Pipe(T, p)) give exactly what W(p) gives (a branch that fails under W makes the Coalesce use its default)"""
+    t = {'k': 1, 'n': [1, 2], 'a': {'a': {'k': 5}, 'k': 2}, 'anonymous': 'value-under-the-key-anonymous', 'str': {'k': 'nested'}}
+    probes = [('resolving-path-string', lambda: 'a.a'), ('key-string', lambda: 'anonymous'), ('key-string-2', lambda: 'k'),
+              ('dotted-resolving-string', lambda: 'str.k'), ('non-resolving-string', lambda: 'zz.y'), ('tuple', lambda: ('a', 'k')),
+              ('list', lambda: ['k']), ('dict', lambda: {'x': 'k'}), ('number', lambda: 7), ('type', lambda: dict)]
+    D = 'DEFAULT-OF-THE-COALESCE'
+    constructs = [('Coalesce(p)', lambda p: Coalesce(p, default=D), True), ('Coalesce(failing, p)', lambda p: Coalesce(T['zz_missing'], p, default=D), True),
+                  ('Coalesce(p, other)', lambda p: Coalesce(p, T['k'], default=D), None),
+                  ('Pipe(p)', lambda p: Pipe(p), False), ('Pipe(T, p)', lambda p: Pipe(T, p), False), ('Pipe(p, T)', lambda p: Pipe(p, T), False)]
+    for wname, W in (('auto', Auto), ('fill', Fill), ('match', Match)):
+        for pname, mkp in probes:
+            base = call(G, t, W(mkp()))
+            for cname, mk, absorbs in constructs:
+                if absorbs is None and not base.ok:
+                    continue       # (falls to the next alternative: covered by the other rows)
+                got = call(G, t, W(mk(mkp())))
+                col.case(('passes-the-mode-on', wname, pname, cname), True)
+                col.count('trees_evaluated')
+                col.count('mode_transparency_checks')
+                if base.ok:
+                    ok = got.ok and got.value == base.value and type(got.value) is type(base.value)
+                elif absorbs and isinstance(base.exc, GlomError) and not type(base.exc).__name__.startswith('GlomError.wrap'):
+                    # (an error that is a GlomError where it is raised; a TypeError wrapped on its way out of glom() is not)
+                    ok = got.ok and got.value == D
+                else:
+                    ok = (not got.ok) and type(got.exc).__name__ == type(base.exc).__name__
+                if not ok:
+                    col.violation('C08/mode-not-passed-on:%s:%s:%s' % (wname, cname.split('(')[0], pname),
+                                  '%s(%s) with p = %r on %s: %r ; %s(p) gives %r' % (W.__name__, cname, mkp(), short(t, 120), got, W.__name__, base), None)
+
+
+class UserSpecType:
+    """a user-defined specifier type: its INSTANCES are specs (they have glomit); the class itself is an ordinary callable"""
+    def __init__(self, label='x'):
+        self.label = label
+
+    def glomit(self, target, scope):
+        return ('evaluated', self.label)
+
+
+def classes_of_specs_are_literals_in_argument_position(col):
+    """"in argument position ... callables are kept as literals": also callables that are CLASSES whose instances are specs (glom's own
+    Val, Spec, Coalesce, Fill ..., a user-defined specifier type) - passing the class around (isinstance checks, factories) is not
+    using a spec"""
+    lits = [('Val', lambda: Val), ('Spec', lambda: Spec), ('Coalesce', lambda: Coalesce), ('Fill', lambda: Fill), ('UserSpecType', lambda: UserSpecType),
+            ('in-list', lambda: [Val, T['k']]), ('in-dict', lambda: {'cls': Spec, 'v': T['k']}), ('in-tuple', lambda: (UserSpecType, Coalesce)),
+            ('instance-control', lambda: UserSpecType('inst'))]
+    target = {'k': ['kv'], 'n': [{'deep': 1}, 2], 'fn': (lambda x: x), 'box': None, 'h': 'hv'}
+    for lname, mk in lits:
+        lit = mk()
+        want = {'in-list': [Val, ['kv']], 'in-dict': {'cls': Spec, 'v': ['kv']}, 'instance-control': ('evaluated', 'inst')}.get(lname, lit)
+        for name, spec, extract in arg_positions(lit):
+            if name in ('Match-Optional-default',):
+                continue
+            got = call(G, dict(target), spec)
+            col.case(('spec-class-literal', lname, name), True)
+            col.count('shape_checks')
+            col.count('spec_classes_in_argument_position')
+            val = extract(got.value) if got.ok else None
+            if not got.ok or val != want:
+                col.violation('C08/class-of-specs-not-kept-as-a-literal:%s' % name if lname != 'instance-control' else 'C08/arg-shape:' + name,
+                              '%s with the argument %r: %r, expected the value %r' % (name, lit, got, want), None)
+
+
 def run(ctx):
     col, rng = ctx.col, ctx.rng
     try:
@@ -573,6 +640,8 @@ def run(ctx):
         else:
             if ctx.shard == 0:
                 documented(col, watch)
+                constructs_that_pass_the_mode_on(col)
+                classes_of_specs_are_literals_in_argument_position(col)
             for i in range(ctx.n(3000, 30000)):
                 mode_case(col, rng, watch, tracer)
         tracer.uninstall()
